@@ -235,23 +235,24 @@ def run(ctx):
     res.rule("COMPOSE", ncomp)
     # ---- the size relation along a history of queries with throw-away filters and caching on (a dropped filter's address is re-used)
     from rules import c05
-    try:
-        h5 = H(ctx.src, ["edgegraph.traversal.helpers"])
-        got, a5, others5, links5, f2 = c05.lifetime_scenario(h5, True)
-        fl5 = h5.fn(FN)
-        for i, b5 in enumerate(others5):
-            sel = Callback("filterfunc", lambda I, n_, a_, k_, _f2=f2, _b=b5: bool(h5.I.truth(h5.I.call(_f2, [a_[0], _b], {}))))
-            fo = h5.call(fl5, a5, b5, False, c04.consts(h5)["NEIGHBOR"], sel)
-            cnt = got.count(b5.name) if isinstance(got, list) else None
-            ok = fo.kind == "return" and cnt is not None and len(fo.value.items) == cnt
-            res.ob(ok, sig=("lifetime", i))
-            if not ok:
-                res.violation("RELATION-LIFETIME", FN, "caching-on,second-filter-allocated-where-the-first-one-lived",
-                              f"caching on; neighbors(a, ANY, NEIGHBOR, f1) with a throw-away filter, then neighbors(a, ANY, NEIGHBOR, f2) with a new filter allocated at the dropped one's address lists "
-                              f"{b5.name} {cnt} time(s) ({got}), but find_links(a, {b5.name}) under the corresponding settings and filter finds {len(fo.value.items) if fo.kind == 'return' else fo!r} link(s)")
-        res.rule("RELATION-LIFETIME", len(others5))
-    except Unknown as u:
-        res.undecide(f"RELATION-LIFETIME: {u}")
+    for mk5 in ("make_reject", "RejectUnhashable"):
+        try:
+            h5 = H(ctx.src, ["edgegraph.traversal.helpers"])
+            got, a5, others5, links5, f2 = c05.lifetime_scenario(h5, True, maker=mk5)
+            fl5 = h5.fn(FN)
+            for i, b5 in enumerate(others5):
+                sel = Callback("filterfunc", lambda I, n_, a_, k_, _f2=f2, _b=b5: bool(h5.I.truth(h5.I.call(_f2, [a_[0], _b], {}))))
+                fo = h5.call(fl5, a5, b5, False, c04.consts(h5)["NEIGHBOR"], sel)
+                cnt = got.count(b5.name) if isinstance(got, list) else None
+                ok = fo.kind == "return" and cnt is not None and len(fo.value.items) == cnt
+                res.ob(ok, sig=("lifetime", i, mk5))
+                if not ok:
+                    res.violation("RELATION-LIFETIME", FN, "caching-on,second-filter-allocated-where-the-first-one-lived" + (",filters-are-unhashable-objects" if mk5 != "make_reject" else ""),
+                                  f"caching on; neighbors(a, ANY, NEIGHBOR, f1) with a throw-away filter, then neighbors(a, ANY, NEIGHBOR, f2) with a new filter allocated at the dropped one's address lists "
+                                  f"{b5.name} {cnt} time(s) ({got}), but find_links(a, {b5.name}) under the corresponding settings and filter finds {len(fo.value.items) if fo.kind == 'return' else fo!r} link(s)")
+            res.rule("RELATION-LIFETIME", len(others5))
+        except Unknown as u:
+            res.undecide(f"RELATION-LIFETIME ({mk5}): {u}")
     # ---- unlink: afterwards find_links(a, b, *) is empty for every setting; other pairs still found
     unlink = h.fn("edgegraph.builder.explicit.unlink")
     nun = 0
